@@ -503,6 +503,11 @@ def core_effects():
     out.append(("P0", ["and", ["r"], ["increase", ["g"], "1"]]))
     out.append(("P1", ["and", ["p", "?x"], ["forall", ["?z", "-", "t1"], ["when", ["q", "?z", "?x"], ["not", ["q", "?z", "?x"]]]]]))
     out.append(("P3", ["and", ["not", ["p", "?x"]], ["when", ["p", "?y"], ["p", "?x"]]]))
+    # a quantified effect whose variable has the name of an action parameter, over another type (a subtype / an unrelated type):
+    # inside the effect the name is the quantified variable, with the quantifier's type
+    out.append(("P2", ["and", ["forall", ["?x", "-", "t3"], ["when", ["not", ["p", "?x"]], ["p", "?x"]]]]))
+    out.append(("P2", ["and", ["q", "?x", "?y"], ["forall", ["?y", "-", "t2"], ["when", ["p", "?x"], ["s", "?y"]]]]))
+    out.append(("P4", ["and", ["forall", ["?u", "-", "t1"], ["when", ["q", "?x", "?u"], ["not", ["q", "?x", "?u"]]]], ["s", "?u"]]))
     return out
 
 
